@@ -1,5 +1,7 @@
 import FatVerif.Model.HistMain
 import FatVerif.Spec.OracleUtil
+import FatVerif.Spec.OracleGround
+import FatVerif.Spec.ByteFile
 /-! Property oracles evaluated on the implementation's own behaviour (history mode).
 
     `oracle.step` sees every completed operation of a history (`HistMain.OpView`): the op text, its result, its device
@@ -23,7 +25,13 @@ import FatVerif.Spec.OracleUtil
     * C12: `dirty-bit-not-set`, `status-not-restored`, `abandoned-not-reported`
     * C13: `readonly-write`
     * C14: `crash-lost`, `crash-unmountable`
-    * C18: `set-readback`, `rename-changed-times`, `foreign-times-changed` -/
+    * C18: `set-readback`, `rename-changed-times`, `foreign-times-changed`
+    * C02: `read-wrong-bytes`, `read-too-long`, `read-short-rule`, `write-count`, `seek-result`, `truncate-content`,
+           `result-shape`
+    * C08: `decode-vs-ground-truth`, `list-vs-ground-truth`, `content-vs-ground-truth`, `foreign-entry-changed`,
+           `foreign-chain-changed`, `inactive-copy-changed`, `invalid-after-mutation`
+    * C20: `write-beyond-volume`, `write-outside-chain`, `wrong-offset`, `extents-content`, `last-cluster-unused`,
+           `content-mismatch`, `fat-link-range` -/
 namespace FatVerif.Oracles
 
 open FatVerif.Spec FatVerif.HistMain
@@ -40,6 +48,14 @@ structure FileSt where
   setC : Option (List Nat) := none
   setM : Option (List Nat) := none
   setA : Option (List Nat) := none
+  /-- C02/C20: the byte-array-with-cursor specification state of this handle (`none`: not tracked — the file has a
+      second live handle, or an earlier check failed) -/
+  bf : Option Cursor.ByteFile := none
+  /-- a `truncate` was issued since the content was last compared with the image -/
+  truncated : Bool := false
+  /-- first cluster of the file as far as the trace tells: from the directory entry at open, else the cluster the
+      first data write went to (the entry's field is pending in the handle until flush) -/
+  firstCl : Option Nat := none
   deriving Inhabited
 
 /-- C18 (i): values that the next listing of the parent must show for `path` -/
@@ -79,6 +95,20 @@ structure OState where
   /-- C18 (iii): flattened metas of the image after operation number `metaAt` -/
   metaAt : Nat := 0
   metaFlat : Array (String × EntryMeta × ByteArray) := #[]
+  /-- C08/C20: ground truth of the image builder, its flattened entries, and what happened since the `raw` op -/
+  ground : Ground := {}
+  groundEntries : Array (String × DirLoc × GEnt) := #[]
+  /-- the first successful `mount` after the `raw` op has been compared with the ground truth -/
+  groundMounted : Bool := false
+  /-- a mutating operation (or any operation that wrote) was issued since the `raw` op -/
+  mutatedHist : Bool := false
+  /-- folded `/a/b` paths named by operations that wrote since the `raw` op -/
+  tainted : List String := []
+  /-- folded paths of the ancestor directories of those objects (the library re-stamps a directory's own entry when
+      something is created in it): their entries are not compared any more, what is below them still is -/
+  taintedExact : List String := []
+  /-- C20: the last-cluster check has been made -/
+  lastChecked : Bool := false
   deriving Inhabited
 
 /-! ## Small helpers -/
@@ -375,6 +405,8 @@ def runFsck (st st' : OState) (v : OpView) (c : Ctx) (onlyFat : Bool) :
         let toC10 := cl == "fat-copies" || cl == "reserved-entries"
         if toC10 && v.prop == "C10" then some s!"C10 {cl} op={c.op} res={c.rk} {rest}"
         else if !toC10 && v.prop == "C03" then some s!"C03 {cl} op={c.op} res={c.rk} {rest}"
+        else if v.prop == "C08" then some s!"C08 invalid-after-mutation {cl} op={c.op} res={c.rk} {rest}"
+        else if v.prop == "C20" && cl == "fat-link-range" then some s!"C20 fat-link-range op={c.op} res={c.rk} {rest}"
         else none
       (msgs.foldl (fun s m => s.insert m) {}, msgs.isEmpty, false, out)
 
@@ -879,6 +911,342 @@ def oC18 (st : OState) (v : OpView) (c : Ctx) :
       | none => []
     (m1 ++ m2 ++ m3, exps, some fa)
 
+/-! ## C02 (and the content tracking C20 builds on) -/
+
+def bytesOfBA (b : ByteArray) : List Nat := b.toList.map (·.toNat)
+
+/-- content of the file at a canonical path, as the decoder reads it from `img` -/
+def fileImageContent (g : Geom) (img : Img) (path : List String) : Option (List Nat) :=
+  match (pathInfo g img path).entry with
+  | some e => if e.isDir then none else
+      match fileContent g img e with
+      | .ok c => some (bytesOfBA c)
+      | .error _ => none
+  | none => none
+
+def samePath (upper : Char → List Char) (a b : List String) : Bool :=
+  foldName upper (showPath a) == foldName upper (showPath b)
+
+/-- bytes the operation wrote into data clusters (= how far a failing `write_all` got) -/
+def dataBytesWritten (g : Geom) (c : Ctx) : Nat :=
+  c.writes.foldl (fun n (off, bs) =>
+    n + ((classify g off bs.length).foldl (fun k (r, _, l) => match r with | .cluster _ => k + l | _ => k) 0)) 0
+
+/-- the operation and its observed result in the vocabulary of `ByteFile.check`; `none`: not a cursor operation, or a
+    result the byte-array specification does not speak about (I/O error, panic …) -/
+def cursorOp (g : Geom) (v : OpView) (c : Ctx) (b : Cursor.ByteFile) : Option (Cursor.FileOp × Cursor.FileRes) :=
+  let res := v.io.res
+  match c.op, c.args with
+  | "read", [_, n] =>
+    match res, n.toNat? with
+    | ["ok", h], some n => (Util.bytesOfHex h).map fun l => (Cursor.FileOp.read n, Cursor.FileRes.bytes l)
+    | _, _ => none
+  | "readx", [_, n] =>
+    match res, n.toNat? with
+    | ["ok", h], some n => (Util.bytesOfHex h).map fun l => (Cursor.FileOp.readExact n, Cursor.FileRes.bytes l)
+    | ["err", "2"], some n => some (Cursor.FileOp.readExact n, Cursor.FileRes.errAt .eof b.content.length)
+    | _, _ => none
+  | "write", [_, p] =>
+    match res, payloadBytes p with
+    | ["ok", k], some bs => k.toNat?.map fun k => (Cursor.FileOp.write bs, Cursor.FileRes.count k)
+    | ["err", "9"], some bs => some (Cursor.FileOp.write bs, Cursor.FileRes.err .noSpace)
+    | _, _ => none
+  | "writeall", [_, p] =>
+    match res, payloadBytes p with
+    | ["ok"], some bs => some (Cursor.FileOp.writeAll bs, Cursor.FileRes.unit)
+    | ["err", "9"], some bs => some (Cursor.FileOp.writeAll bs, Cursor.FileRes.errAt .noSpace (b.pos + dataBytesWritten g c))
+    | ["err", "3"], some bs => some (Cursor.FileOp.writeAll bs, Cursor.FileRes.errAt .writeZero (b.pos + dataBytesWritten g c))
+    | _, _ => none
+  | "seek", [_, w, n] =>
+    match n.toInt? with
+    | none => none
+    | some d =>
+      let sf : Option Cursor.SeekFrom := if w == "start" then some (Cursor.SeekFrom.start d.toNat) else if w == "cur" then some (Cursor.SeekFrom.current d)
+                                  else if w == "end" then some (Cursor.SeekFrom.fromEnd d) else none
+      match sf, res with
+      | some sf, ["ok", p] => p.toNat?.map fun p => (Cursor.FileOp.seek sf, Cursor.FileRes.pos p)
+      | some sf, ["err", "4"] => some (Cursor.FileOp.seek sf, Cursor.FileRes.err .invalidInput)
+      | _, _ => none
+  | "truncate", [_] => if res == ["ok"] then some (Cursor.FileOp.truncate, Cursor.FileRes.unit) else none
+  | _, _ => none
+
+/-- per-handle `ByteFile` tracking; messages are C02's (the caller drops them under other properties) -/
+def oC02 (st st' : OState) (v : OpView) (c : Ctx) : OState × List String :=
+  match st'.geom with
+  | none => (st', [])
+  | some g =>
+    let imgO := applyOverlay v.after (v.overlay.getD [])
+    match c.op, c.args with
+    | "open_file", [_, _, n] | "create_file", [_, _, n] =>
+      match c.ok, handleId n with
+      | true, some id =>
+        match st'.files[id]? with
+        | none => (st', [])
+        | some fs =>
+          let others := st.files.fold (fun b k f => b || (k != id && samePath c.upper f.path fs.path)) false
+          if others then
+            -- a second handle on the same file: none of them is tracked
+            ({ st' with files := st'.files.fold (fun m k f =>
+                m.insert k (if samePath c.upper f.path fs.path then { f with bf := none } else f)) {} }, [])
+          else
+            let bf := (fileImageContent g imgO fs.path).map fun l => ({ content := l, pos := 0 } : Cursor.ByteFile)
+            let fc := match (pathInfo g imgO fs.path).entry with
+              | some e => if e.firstCluster == 0 then none else some e.firstCluster
+              | none => none
+            ({ st' with files := st'.files.insert id { fs with bf := bf, firstCl := fc } }, [])
+      | _, _ => (st', [])
+    | _, ftok :: _ =>
+      match c.fh, handleId ftok with
+      | some fs, some id =>
+        match fs.bf with
+        | none => (st', [])
+        | some b =>
+          let firstData := c.writes.findSome? fun (off, bs) => (classify g off bs.length).findSome? fun (r, _, _) =>
+            match r with | .cluster k => some k | _ => none
+          let setBf (o : Option Cursor.ByteFile) (tr : Bool) : OState :=
+            match st'.files[id]? with
+            | some f =>
+              let fc := if c.op == "truncate" && c.ok && (o.map (·.pos)) == some 0 then none
+                        else if (c.op == "write" || c.op == "writeall") && f.firstCl.isNone then firstData
+                        else f.firstCl
+              { st' with files := st'.files.insert id { f with bf := o, truncated := tr, firstCl := fc } }
+            | none => st'
+          let tag := s!"op={c.op} res={c.rk} file={showPath fs.path} pos={b.pos} size={b.content.length}"
+          if c.op == "readall" then
+            match v.io.res with
+            | ["ok", h] =>
+              match Util.bytesOfHex h with
+              | some l =>
+                let want := b.content.drop b.pos
+                if l == want then (setBf (some { b with pos := b.content.length }) fs.truncated, [])
+                else if l.length > want.length then (setBf none false, [s!"C02 read-too-long {tag} returned {l.length} bytes, {want.length} remain"])
+                else (setBf none false, [s!"C02 read-wrong-bytes {tag} returned {l.length} bytes, expected {want.length}"])
+              | none => (setBf none false, [])
+            | _ => (setBf none false, [])
+          else if c.op == "flush" || c.op == "dropf" then
+            if !c.ok then (setBf none false, []) else
+            match fileImageContent g imgO fs.path with
+            | some l =>
+              if l == b.content then (setBf (some b) false, [])
+              else
+                let sig := if fs.truncated then "truncate-content" else "write-count"
+                (setBf none false, [s!"C02 {sig} {tag} after {c.op} the image holds {l.length} bytes, the byte-array specification {b.content.length}{if l.length == b.content.length then " (different bytes)" else ""}"])
+            | none => (setBf (some b) fs.truncated, [])
+          else if isFileOp c.op && !["extents", "set_created", "set_modified", "set_accessed"].contains c.op then
+            match cursorOp g v c b with
+            | none => (setBf none false, [])
+            | some (op, res) =>
+              match Cursor.ByteFile.check g.clusterSize op res b with
+              | .ok b' => (setBf (some b') (fs.truncated || c.op == "truncate"), [])
+              | .error sig => (setBf none false, [s!"C02 {sig} {tag} result {" ".intercalate (v.io.res.map fun t => (t.take 40).toString)}"])
+          else (st', [])
+      | _, _ => (st', [])
+    | _, _ => (st', [])
+
+/-! ## C08 -/
+
+def groundActive (st : OState) : Bool := !st.ground.geo.isEmpty
+
+/-- (a) the decoder against the ground truth at the first mount; (b) listings and file contents before any mutation -/
+def oC08read (st : OState) (gr : Ground) (v : OpView) (c : Ctx) (g : Geom) : List String :=
+  if c.op == "mount" && c.ok && !st.groundMounted then
+    match groundDiff gr g v.after with
+    | some d => [s!"C08 decode-vs-ground-truth {d}"]
+    | none => []
+  else if st.mutatedHist || !c.ok then []
+  else if c.op == "list" then
+    match c.dh with
+    | none => []
+    | some dp =>
+      match gr.lookup c.upper dp with
+      | some (some gd, _) =>
+        let want := gd.rows
+        let got := v.io.rows.toArray.qsort (· < ·)
+        if want == got then [] else
+        match (want.zip got).find? fun (a, b) => a != b with
+        | some (a, b) => [s!"C08 list-vs-ground-truth dir={showPath dp} ground-truth={a} library={b}"]
+        | none => [s!"C08 list-vs-ground-truth dir={showPath dp} ground truth has {want.size} rows, library {got.size}"]
+      | _ => [s!"C08 list-vs-ground-truth dir={showPath dp} the ground truth has no such directory"]
+  else if c.op == "readall" then
+    match c.fh with
+    | some fs =>
+      if fs.pos != some 0 then [] else
+      match gr.lookup c.upper fs.path, (v.io.res.getD 1 "-") with
+      | some (_, some e), h =>
+        match Util.bytesOfHex h with
+        | some l =>
+          let got := fnvHex ⟨(l.map UInt8.ofNat).toArray⟩
+          if got == e.hash || !e.hashKnown then [] else
+          [s!"C08 content-vs-ground-truth file={showPath fs.path} ground-truth hash {e.hash} ({e.size} bytes), library returned {l.length} bytes with hash {got}"]
+        | none => []
+      | _, _ => []
+    | none => []
+  else []
+
+/-- (c) frame: what the operation did not name is untouched -/
+def oC08frame (st : OState) (v : OpView) (c : Ctx) (g : Geom) (tainted exact : List String) : List String :=
+  let gr := st.ground
+  let fold (p : String) : String := foldName c.upper p
+  let named := c.touched.map fun p => fold (showPath p)
+  let isAnc (a b : String) : Bool := a == b || (b.startsWith (a ++ "/")) || a == "/"
+  let exempt (p : String) : Bool :=
+    let fp := fold p
+    tainted.any (fun t => isAnc t fp) || exact.contains fp || named.any (fun n => isAnc fp n)
+  let wroteFat := c.writes.any fun (off, bs) => (classify g off bs.length).any fun (r, _, _) =>
+    match r with | .fat _ => true | _ => false
+  let written : Std.HashSet Nat := c.writes.foldl (fun s (off, bs) =>
+    (classify g off bs.length).foldl (fun s (r, _, _) => match r with | .cluster k => s.insert k | _ => s) s) {}
+  let act := g.activeCopy
+  let inactive :=
+    if g.mirroring then [] else
+    match c.writes.findSome? fun (off, bs) => (classify g off bs.length).findSome? fun (r, o, l) =>
+        match r with | .fat copy => if copy != act then some (copy, o, l) else none | _ => none with
+    | some (copy, o, l) => [s!"C08 inactive-copy-changed op={c.op} copy={copy} active={act} off={o} len={l}"]
+    | none => []
+  let key (loc : DirLoc) : Nat := match loc with | .fixedRoot => 0 | .chain f => f
+  let (_, msgs) := st.groundEntries.foldl (fun (acc : Std.HashMap Nat (Option ParsedDir) × List String) (p, loc, e) =>
+    let (cache, msgs) := acc
+    if !msgs.isEmpty || exempt p then acc else
+    let (cache, pd) := match cache[key loc]? with
+      | some pd => (cache, pd)
+      | none =>
+        let pd := (Spec.listDir g v.after loc).toOption
+        (cache.insert (key loc) pd, pd)
+    match pd with
+    | none => (cache, [s!"C08 foreign-entry-changed op={c.op} entry '{p}': its directory no longer decodes"])
+    | some pd =>
+      match pd.entries.find? fun m => m.shortRaw == e.short with
+      | none => (cache, [s!"C08 foreign-entry-changed op={c.op} entry '{p}' is gone"])
+      | some m =>
+        match entDiff e m with
+        | some d => (cache, [s!"C08 foreign-entry-changed op={c.op} entry '{p}' {d}"])
+        | none =>
+          let chain := (gr.chains[e.first]?).getD #[]
+          let touchedData := chain.any fun k => written.contains k
+          let m1 := if touchedData then
+              match contentHashDiff g v.after e m with
+              | some d => [s!"C08 foreign-entry-changed op={c.op} entry '{p}' {d}"]
+              | none => []
+            else []
+          let m2 := if wroteFat && m1.isEmpty then
+              match chain.find? fun k => fatEntryRaw g v.before act k != fatEntryRaw g v.after act k with
+              | some k => [s!"C08 foreign-chain-changed op={c.op} object '{p}' FAT entry {k}: before {fatEntryRaw g v.before act k} after {fatEntryRaw g v.after act k}"]
+              | none => []
+            else []
+          (cache, m1 ++ m2)) (({} : Std.HashMap Nat (Option ParsedDir)), [])
+  inactive ++ msgs
+
+/-- state changes of the ground-truth tracking and the C08 messages -/
+def oC08 (st st' : OState) (v : OpView) (c : Ctx) : OState × List String :=
+  -- new ground truth (the `G` lines follow the `R` line of the `raw` op, so they are seen at the next operation)
+  let fresh := v.ground.length != st.ground.lines
+  let st := if fresh then { st with groundMounted := false, mutatedHist := false, tainted := [], taintedExact := [],
+                                    lastChecked := false } else st
+  let st' := if fresh then
+      let gr := parseGround v.ground
+      let ents := match st'.geom with | some g => gr.entries g | none => #[]
+      { st' with ground := gr, groundEntries := ents, groundMounted := false, mutatedHist := false, tainted := [],
+                 taintedExact := [], lastChecked := false }
+    else st'
+  if !groundActive st' || c.op == "raw" then (st', []) else
+  match st'.geom with
+  | none => (st', [])
+  | some g =>
+    let msgsRead := if v.prop == "C08" then oC08read st st'.ground v c g else []
+    let wrote := !c.writes.isEmpty && !["format", "mount"].contains c.op
+    let named := c.touched.map fun p => foldName c.upper (showPath p)
+    let ancestors := c.touched.flatMap fun p =>
+      (List.range p.length).map fun k => foldName c.upper (showPath (p.take k))
+    let tainted := if wrote then (named ++ st.tainted).eraseDups else st.tainted
+    -- this operation's own ancestors are exempt through `named`; they count as re-stamped from the next one on
+    let msgsFrame := if v.prop == "C08" && wrote && st.mounted then
+        oC08frame { st with ground := st'.ground, groundEntries := st'.groundEntries } v c g tainted st.taintedExact else []
+    ({ st' with groundMounted := st.groundMounted || (c.op == "mount" && c.ok)
+                mutatedHist := st.mutatedHist || wrote || isMutatingOp c.op, tainted := tainted
+                taintedExact := if wrote then (ancestors ++ st.taintedExact).eraseDups else st.taintedExact },
+     msgsRead ++ msgsFrame)
+
+/-! ## C20 -/
+
+def oC20 (st st' : OState) (v : OpView) (c : Ctx) : OState × List String :=
+  match st'.geom with
+  | none => (st', [])
+  | some g =>
+    if c.op == "raw" || c.op == "format" then (st', []) else
+    let beyond := c.writes.filterMap fun (off, bs) =>
+      if off + bs.length > g.volumeBytes then
+        some s!"C20 write-beyond-volume op={c.op} off={off} len={bs.length} volume={g.volumeBytes}"
+      else none
+    let fileMsgs : List String × Bool :=
+      match c.fh with
+      | none => ([], false)
+      | some fs0 =>
+        -- the handle after the operation (its `ByteFile` already advanced)
+        let fsNow := (c.args.head?.bind handleId).bind fun id => st'.files[id]?
+        let bfNow := fsNow.bind (·.bf)
+        if (c.op == "write" || c.op == "writeall") && c.ok then
+          match fsNow.bind (·.firstCl) with
+          | none => ([], false)
+          | some first =>
+            match chainOf g v.after first with
+            | .error e => ([s!"C20 write-outside-chain op={c.op} file={showPath fs0.path} the chain from cluster {first} does not decode: {e}"], false)
+            | .ok chain =>
+              let inChain : Std.HashSet Nat := chain.foldl (fun s k => s.insert k) {}
+              let outside := c.writes.findSome? fun (off, bs) => (classify g off bs.length).findSome? fun (r, o, l) =>
+                match r with
+                | .cluster k => if inChain.contains k then none else some (k, o, l)
+                | _ => none
+              -- all transferred bytes must have gone into clusters of the chain
+              let transferred := if c.op == "write" then (v.io.res.getD 1 "0").toNat?.getD 0 else payloadLen (c.args.getD 1 "-")
+              let inChainBytes := c.writes.foldl (fun n (off, bs) =>
+                n + ((classify g off bs.length).foldl (fun k (r, _, l) =>
+                  match r with | .cluster q => if inChain.contains q then k + l else k | _ => k) 0)) 0
+              let m1 := match outside with
+                | some (k, o, l) => [s!"C20 write-outside-chain op={c.op} file={showPath fs0.path} off={o} len={l} cluster {k} is not in the file's chain {chain.toList.take 8}"]
+                | none =>
+                  if inChainBytes != transferred then
+                    [s!"C20 write-outside-chain op={c.op} file={showPath fs0.path} {transferred} bytes were written, {inChainBytes} of them into the file's chain {chain.toList.take 8}"]
+                  else []
+              -- data in clusters at or beyond a byte mark sits where the 64-bit offset formula says
+              let mark := st.ground.marks.foldl (fun m (_, k) => min m k) (g.totalClusters + 2)
+              let m2 := match bfNow with
+                | some b =>
+                  let cs := g.clusterSize
+                  (List.range chain.size).findSome? fun i =>
+                    let k := chain[i]!
+                    if k < mark then none else
+                    let want := (b.content.drop (i * cs)).take cs
+                    let got := bytesOfBA (readBytes v.after (g.clusterOff k) want.length)
+                    if got == want then none else
+                    some s!"C20 wrong-offset op={c.op} file={showPath fs0.path} cluster {k} (index {i} of the chain): the bytes at device offset {g.clusterOff k} are not the file's bytes {i * cs}…"
+                | none => none
+              -- the last cluster of the volume is used when the allocation hint points at it
+              let m3 :=
+                if st.lastChecked || chain.size < 2 then ([], false) else
+                match st.ground.last with
+                | some (lastC, true) =>
+                  if st.ground.hintKind == "last" || st.ground.hintKind == "last-1" then
+                    if fatEntry g v.after lastC == .free then
+                      ([s!"C20 last-cluster-unused op={c.op} hint={st.ground.hintKind} cluster {lastC} is still free after an allocation of {chain.size} clusters: {chain.toList.take 8}"], true)
+                    else ([], true)
+                  else ([], true)
+                | _ => ([], true)
+              (m1 ++ m2.toList ++ m3.1, m3.2)
+        else if c.op == "extents" && c.ok then
+          match fs0.bf with
+          | none => ([], false)
+          | some b =>
+            let tok := v.io.res.getD 1 "-"
+            let ranges := if tok == "-" then [] else (tok.splitOn ",").filterMap fun r =>
+              match r.splitOn ":" with
+              | [o, l] => (match o.toNat?, l.toNat? with | some o, some l => some (o, l) | _, _ => none)
+              | _ => none
+            let bytes := ranges.foldl (fun acc (o, l) => acc ++ readBytes v.after o l) ByteArray.empty
+            if bytesOfBA bytes == b.content then ([], false)
+            else ([s!"C20 extents-content file={showPath fs0.path} extents={tok} give {bytes.size} bytes, the written content has {b.content.length}"], false)
+        else ([], false)
+    ({ st' with lastChecked := st.lastChecked || fileMsgs.2 }, beyond ++ fileMsgs.1)
+
 /-! ## The oracle -/
 
 def stepO (st : OState) (v : OpView) : OState × List String :=
@@ -897,6 +1265,22 @@ def stepO (st : OState) (v : OpView) : OState × List String :=
     let (t, msgs) := oC01 st st' v c
     let skipped := st'.mounted && v.overlay.isNone && !st'.files.isEmpty
     ({ st' with tree := t, treeStale := skipped && (st.treeStale || !c.writes.isEmpty) }, msgs)
+  | "C02" => oC02 st st' v c
+  | "C08" =>
+    let (pm, pc, stale, fmsgs) := runFsck st st' v c false
+    let (st2, msgs) := oC08 st { st' with prevMsgs := pm, prevClean := pc, fsckStale := stale } v c
+    (st2, msgs ++ fmsgs)
+  | "C20" =>
+    let (pm, pc, stale, fmsgs) := runFsck st st' v c false
+    let (st2, cmsgs) := oC02 st { st' with prevMsgs := pm, prevClean := pc, fsckStale := stale } v c
+    let (st3, _) := oC08 st st2 v c
+    let (st4, msgs) := oC20 st st3 v c
+    -- what was written must be what the image holds after a flush
+    let cmsgs := cmsgs.filterMap fun m =>
+      match m.splitOn " " with
+      | _ :: sig :: rest => if c.op == "flush" || c.op == "dropf" then some s!"C20 content-mismatch ({sig}) {" ".intercalate rest}" else none
+      | _ => none
+    (st4, msgs ++ cmsgs ++ fmsgs)
   | "C04" => ({ st' with tree := none }, oC04 st' v c)
   | "C05" => ({ st' with tree := none }, oC05 st v c)
   | "C09" => ({ st' with tree := none }, oC09 v c)
